@@ -174,7 +174,7 @@ def check_props_file(pid: str):
     }
 
 
-def coq_eval_codes(pid: str, exprs: list[str], shard=250, workers=14, imports="Exec.Run"):
+def coq_eval_codes(pid: str, exprs: list[str], shard=250, workers=14, imports="Exec.Run", timeout=1500):
     """Evaluate Coq expressions of type nat by vm_compute (0 = agrees, 1 = disagrees,
     2 = outside the model's domain).  Returns ({index: code} for non-zero codes, error text or None)."""
     BUILD.mkdir(parents=True, exist_ok=True)
@@ -193,7 +193,7 @@ def coq_eval_codes(pid: str, exprs: list[str], shard=250, workers=14, imports="E
 
     def one(sp):
         s, p = sp
-        rc, out, err = run(["coqc", "-Q", str(COQ / "theories"), "Dyce", str(p)], 1500, cwd=BUILD)
+        rc, out, err = run(["coqc", "-Q", str(COQ / "theories"), "Dyce", str(p)], timeout, cwd=BUILD)
         if rc != 0:
             return s, None, (out + err)[-3000:]
         m = re.search(r"=\s*(\[.*?\])\s*:\s*list \(nat \* nat\)", out, flags=re.S)
@@ -232,7 +232,7 @@ def coq_show(expr: str, imports="Exec.Run") -> str:
     p = BUILD / f"show_{os.getpid()}.v"
     p.write_text(f"From Dyce Require Import {imports}.\nImport ListNotations.\nOpen Scope Z_scope.\n"
                  f"Eval vm_compute in ({expr}).\n")
-    rc, out, err = run(["coqc", "-Q", str(COQ / "theories"), "Dyce", str(p)], 600, cwd=BUILD)
+    rc, out, err = run(["coqc", "-Q", str(COQ / "theories"), "Dyce", str(p)], 120, cwd=BUILD)
     for ext in (".v", ".vo", ".vok", ".vos", ".glob"):
         q = p.with_suffix(ext)
         if q.exists():
@@ -247,8 +247,13 @@ def coq_show(expr: str, imports="Exec.Run") -> str:
 # running the implementation
 
 
+RUN_BUDGET = {"quick": "600", "thorough": "5400"}
+CURRENT_TIER = "quick"
+
+
 def impl_env(extra=None):
     env = {k: v for k, v in os.environ.items() if not k.startswith("PYTHON")}
+    env.setdefault("VERIF_RUN_BUDGET", RUN_BUDGET.get(CURRENT_TIER, "600"))
     env.update({"PYTHONPATH": f"{REPO}:{VERIF / 'harness'}", "PYTHONHASHSEED": "0",
                 "PYTHONWARNINGS": "ignore", "PYTHONDONTWRITEBYTECODE": "1",
                 "NUMERARY_BEARTYPE": "0", "DYCE_REPO": str(REPO)})
@@ -373,6 +378,8 @@ def load_corpus(pid):
 
 def main(pid: str, argv):
     ctx = Ctx(pid, argv)
+    global CURRENT_TIER
+    CURRENT_TIER = ctx.tier
     mod = importlib.import_module(f"props.{pid}")
     known = load_known()
     violations = []  # (replay path, suffix)
@@ -625,7 +632,9 @@ def disagree(mod, pid, c, coq_ok):
         if e == "MISMATCH":
             return r
         if e is not None:
-            codes, cerr = coq_eval_codes(pid + "s", [e if getattr(mod, "CODES", False) else f"cb ({e})"])
+            # a shrunk candidate may be far more expensive for the model than the generated case was (the generators
+            # bound that cost, the shrinker does not): a short limit, and "no verdict" is not a disagreement
+            codes, cerr = coq_eval_codes(pid + "s", [e if getattr(mod, "CODES", False) else f"cb ({e})"], timeout=45)
             if any(c == 1 for c in codes.values()) and not cerr:
                 return r
     return None
@@ -636,11 +645,13 @@ def shrink(mod, pid, c, r, coq_ok, budget=40):
         return c, r
     steps = 0
     improved = True
-    while improved and steps < budget:
+    t_end = time.time() + 120           # wall-clock budget: a library that hangs on its inputs must not stall the report
+    os.environ["VERIF_CASE_TIMEOUT"] = "15"
+    while improved and steps < budget and time.time() < t_end:
         improved = False
         for c2 in mod.shrink_candidates(c):
             steps += 1
-            if steps > budget:
+            if steps > budget or time.time() > t_end:
                 break
             r2 = disagree(mod, pid, c2, coq_ok)
             if r2 is not None:
@@ -662,6 +673,7 @@ def search_neighbours(mod, pid, c, budget=60):
             break
     if not cands:
         return None
+    os.environ["VERIF_CASE_TIMEOUT"] = "15"
     res, err = run_impl(pid, cands, tag="_search")
     if err:
         return None
